@@ -255,3 +255,22 @@ class HostModel:
                         r.scope = 0  # datagrams read from an AF_INET6 socket carry the receiving scope id
             return msg, self.cache.apply_response(t_ms, msg.records())
         return msg, None
+
+
+def sighting_cause(cache, sight, flush_marks, r, has_v6_socket):
+    """Why the library's memory of the last multicast sighting of record r (its cache entry) differs from the log of
+    multicast sightings (times in ms). Used by C11/C12 to name the known sighting-proxy findings."""
+    e = cache.e.get(r.ident())
+    last = sight.get(r.ident())
+    if r.type == wire.T_AAAA and e is None and last is not None and has_v6_socket:
+        return "aaaa-scope"
+    if e is None:
+        return "sighting-erased" if last is not None else "none"
+    if last is None or e.created > last + 0.5:
+        return "flush-mark" if flush_marks.get(r.ident()) == e.created else "unicast-sighting"
+    if e.created < last - 0.5:
+        return "sighting-swallowed-by-duplicate-guard"
+    if e.ttl != r.ttl:
+        return "cached-ttl-differs"
+    return "boundary"
+
